@@ -24,7 +24,7 @@ import (
 )
 
 type osOutcome struct {
-	Excl bool // opened with O_EXCL
+	Excl    bool   // opened with O_EXCL
 	Call    string // os.Stat, os.Rename, ...
 	Role    string // target | destination | member[.member|2] | destination.member[.member|2] | other
 	Outcome string // ok | file | dir | ENOENT | ...
@@ -45,6 +45,7 @@ type fsRun struct {
 	// the atoms that relate the source path to the destination path and how
 	// each came out (COPY/MOVE)
 	PathRel map[string]string
+	Val     string // the whole valuation (for messages)
 }
 
 type fsExplorer struct {
@@ -64,7 +65,7 @@ var errnoSets = map[string][]string{
 	"os.Remove":    {"ok", "ENOENT", "EACCES"},
 	"os.RemoveAll": {"ok", "EACCES"},
 	"os.Rename":    {"ok", "ENOENT", "ENOTDIR", "EINVAL", "EACCES", "ENOTEMPTY"},
-	"io.Copy":      {"ok", "read-error", "write-error"},
+	"io.Copy":      {"ok", "read-error", "write-error", "write-ENOSPC"},
 	"File.Close":   {"ok", "EIO"},
 }
 
@@ -242,8 +243,8 @@ func (fx *fsExplorer) model(in *Interp, site ssa.CallInstruction, name string, a
 		return args[0], true
 	case "path.IsAbs":
 		return kTrue, true // refusals of the sanitiser are C03's table
-	case "strings.Contains", "strings.IndexRune":
-		if name == "strings.Contains" {
+	case "strings.Contains", "strings.ContainsRune", "strings.IndexRune", "strings.IndexByte":
+		if name == "strings.Contains" || name == "strings.ContainsRune" {
 			return kFalse, true
 		}
 		return kInt(-1), true
@@ -329,10 +330,15 @@ func (fx *fsExplorer) model(in *Interp, site ssa.CallInstruction, name string, a
 		switch o {
 		case "ok":
 			return Tuple{[]Val{kInt(0), kNil}}, true
-		case "write-error":
-			// a failing write to an *os.File is a *PathError naming the file
+		case "write-error", "write-ENOSPC":
+			// a failing write to an *os.File is a *PathError naming the file;
+			// a full disk is the class code is most likely to single out
 			hp := SymStr{Key: "writtenfile", HostPath: true}
-			return Tuple{[]Val{kInt(0), fx.osError(in, "os.Write", "EIO", hp)}}, true
+			errno := "EIO"
+			if o == "write-ENOSPC" {
+				errno = "ENOSPC"
+			}
+			return Tuple{[]Val{kInt(0), fx.osError(in, "os.Write", errno, hp)}}, true
 		}
 		return Tuple{[]Val{kInt(0), in.mkErr(&ErrObj{Kind: "ext", Msg: kStr("unexpected EOF"), Key: "body-read-error"})}}, true
 	case "(*os.File).Name":
@@ -559,6 +565,7 @@ func exploreFileServer(c *Ctx, r *RuleResult) []*fsRun {
 			if os.Getenv("GWFSTRACE") == run.Method {
 				fmt.Printf("   valuation: %s -> %s\n", valuationString(in.ch.valuation()), run.Status)
 			}
+			run.Val = valuationString(in.ch.valuation())
 			for k, v := range in.ch.valuation() {
 				if strings.HasPrefix(k, "eq(") && strings.Contains(k, "header:") && v == "equal" {
 					run.Headers[k] = v
@@ -568,6 +575,34 @@ func exploreFileServer(c *Ctx, r *RuleResult) []*fsRun {
 						run.PathRel = map[string]string{}
 					}
 					run.PathRel[k] = v
+				}
+			}
+			// equal through a constant: both were found equal to the same text
+			{
+				srcC, dstC := map[string]bool{}, map[string]bool{}
+				for k, v := range in.ch.valuation() {
+					if v != "equal" || !strings.HasPrefix(k, "eq(c:") {
+						continue
+					}
+					i := strings.Index(k, ",s:")
+					if i < 0 {
+						continue
+					}
+					konst, sym := k[len("eq(c:"):i], k[i+3:]
+					hasS, hasD := strings.Contains(sym, "r.URL.Path"), strings.Contains(sym, "header:\"Destination\"")
+					if hasS && !hasD {
+						srcC[konst] = true
+					} else if hasD && !hasS {
+						dstC[konst] = true
+					}
+				}
+				for kc := range srcC {
+					if dstC[kc] {
+						if run.PathRel == nil {
+							run.PathRel = map[string]string{}
+						}
+						run.PathRel["eq(both equal the constant "+kc+")"] = "equal"
+					}
 				}
 			}
 			for _, o := range fx.os {
@@ -1001,7 +1036,7 @@ func codeDecidedRefusals(c *Ctx, r *RuleResult, runs []*fsRun, methods map[strin
 				al = append(al, st+" ("+why+")")
 			}
 			sort.Strings(al)
-			r.Violation("refusal-code|"+k, "-", fmt.Sprintf("%s is refused with %s although no operating-system call failed; with nothing wrong in the file system the statement knows only %s for %s. Trace: %s", run.Method, run.Status, strings.Join(al, ", "), run.Method, run.describe()), nil)
+			r.Violation("refusal-code|"+k, "-", fmt.Sprintf("%s is refused with %s although no operating-system call failed; with nothing wrong in the file system the statement knows only %s for %s. Trace: %s (tests relating source and destination in this run: %v)", run.Method, run.Status, strings.Join(al, ", "), run.Method, run.describe(), run.PathRel)+" valuation: "+run.Val, nil)
 		}
 	}
 	// a prefix test between the two paths decides 'inside' only when the
